@@ -7,11 +7,22 @@ import (
 	"strings"
 )
 
-// VerifGetFull exposes the internal lookup (length, timestamp, marker).
+// VerifGetFull reads what is stored under seqno (bytes, timestamp, marker)
+// straight from the ring.  It deliberately does not go through the package's
+// own lookup helpers, whose signatures a refactoring may change.
 func (cache *Cache) VerifGetFull(seqno uint16, result []byte) (uint16, uint32, bool) {
 	cache.mu.Lock()
 	defer cache.mu.Unlock()
-	return get(seqno, cache.entries, result)
+	for i := range cache.entries {
+		e := &cache.entries[i]
+		if e.lengthAndMarker == 0 || e.seqno != seqno {
+			continue
+		}
+		l := e.lengthAndMarker & 0x7FFF
+		n := uint16(copy(result, e.buf[:l]))
+		return n, e.timestamp, e.lengthAndMarker&0x8000 != 0
+	}
+	return 0, 0, false
 }
 
 // VerifDump returns the complete ring state: tail, and per slot seqno,
@@ -24,7 +35,7 @@ func (cache *Cache) VerifDump(id func(buf []byte) string) string {
 	fmt.Fprintf(&b, "t%d/%d", cache.tail, len(cache.entries))
 	for i := range cache.entries {
 		e := &cache.entries[i]
-		fmt.Fprintf(&b, "|%d,%x,%d,%s", e.seqno, e.lengthAndMarker, e.timestamp, id(e.buf[:e.length()]))
+		fmt.Fprintf(&b, "|%d,%x,%d,%s", e.seqno, e.lengthAndMarker, e.timestamp, id(e.buf[:e.lengthAndMarker&0x7FFF]))
 	}
 	return b.String()
 }
